@@ -112,17 +112,17 @@ func runC11(c *Ctx) {
 		x := PClose()
 		endPkt = &x
 	case "out-of-order":
-		// a packet that is not valid in the phase reached
-		var x CPkt
-		if len(pk) >= 4 {
-			x = PTunnelAuth("again")
-		} else {
-			x = PChannel(p.AllowedHost, HostAllowed)
-			x.Verdict = HostAllowed
-			if len(pk) == 3 {
-				x = PHandshake(tw.MC.ServerCaps, 1, 0)
-			}
+		// a request that is not valid in the phase reached: any of the four set-up requests
+		// except the one that would be next
+		cands := []CPkt{PHandshake(tw.MC.ServerCaps, 1, 0), PTunnelCreate(ValidCookie(c, tw, p, p.AllowedHost), true), PTunnelAuth("again"), PChannel(p.AllowedHost, HostAllowed)}
+		phase := len(pk)
+		if phase > 4 {
+			phase = 4
 		}
+		if phase < 4 {
+			cands = append(cands[:phase], cands[phase+1:]...)
+		}
+		x := cands[c.T.Choose(len(cands))]
 		endPkt = &x
 	case "unframeable":
 		x := CPkt{Kind: KUnknown, Type: 0x0A, Bytes: codec.PacketRaw(0x0A, uint32(c.T.Choose(8)), c.T.Bytes(4, 9))}
@@ -138,6 +138,30 @@ func runC11(c *Ctx) {
 	t := tw.Tuns[0]
 	cl := t.Client
 	stalled := false
+	if inflight && hostData && c.T.Bool(1, 2) {
+		// the client stops reading once host data has started to arrive: from then on only
+		// relay writes are held
+		inflight = false
+		c.S.AddActor("F client-stops-reading", func() bool {
+			if stalled || c.S.Draining {
+				return false
+			}
+			for _, e := range cl.Events {
+				if e.Kind == "pkt" && e.Pkt.Type == codec.PktData {
+					return true
+				}
+			}
+			return false
+		}, func() {
+			stalled = true
+			for _, e := range c.S.Ends() {
+				if !e.Auto && !e.Owned && !e.Closed && strings.HasPrefix(e.Name, p.Name+".") {
+					e.HoldWrites = true
+					c.S.Count("fault.stall.write")
+				}
+			}
+		})
+	}
 	if inflight {
 		c.S.AddActor("F inflight-stall", func() bool { return !stalled && len(cl.Sent) >= 4 && !c.S.Draining }, func() {
 			stalled = true
@@ -186,7 +210,42 @@ func runC11(c *Ctx) {
 			hc.Hold = true
 		}
 	}
-	Drain(c, 4000)
+	// A client that has stopped reading stays that way (its prerogative): for end causes that
+	// do not require the gateway to write to the client while the client stays connected, held client-facing writes are NOT
+	// lifted; the gateway must release everything regardless.  Host-side stalls are lifted.
+	// (After the client has closed or reset, a held write is not sustainable: the peer's kernel
+	// answers with a reset, so those causes lift the stall.)
+	keepClientStall := cause == "unframeable"
+	if keepClientStall {
+		// ... unless the packet loop itself is the one stuck behind the client (a held control
+		// response): then the gateway has not even seen the end of the tunnel yet
+		for _, d := range c.S.PendingWriteData(p.Name + ".") {
+			pk := d
+			if tr == "ws" && len(pk) >= 2 {
+				switch pk[1] & 0x7f {
+				case 126:
+					pk = pk[min(4, len(pk)):]
+				case 127:
+					pk = pk[min(10, len(pk)):]
+				default:
+					pk = pk[2:]
+				}
+			}
+			if len(pk) < 2 || pk[0] != codec.PktData {
+				keepClientStall = false
+			}
+		}
+	}
+	c.S.Draining = true
+	for _, e := range c.S.Ends() {
+		clientFacing := strings.HasSuffix(e.Name, "'") && strings.HasPrefix(e.Name, p.Name+".")
+		if keepClientStall && clientFacing && e.HoldWrites {
+			c.S.Count("probe.client_never_reads_again")
+			continue
+		}
+		e.HoldDeliver, e.HoldWrites = false, false
+	}
+	c.S.Run(nil, 4000, 20*time.Second)
 	c.S.Run(nil, 2000, 40*time.Second)
 
 	ended := true
